@@ -41,14 +41,20 @@ RULE = ("/proc/net/dev files printed by the kernel printer of coq/C09/Spec.v fro
         "counters) or do decrease (class wrap) -- and churn histories: X listed, X restarts lower while listed (offset recorded), X "
         "replaced by Z in a poll whose number of names does not shrink (rename / unplug+plug), X listed again, one more "
         "growing poll; for ALL history classes every poll must equal the kernel counters plus the ghost offsets of "
-        "Spec.spec_wrap_hist (restarts seen while the device stayed listed; dropped when it is absent). Large tables generated inside Gallina "
+        "Spec.spec_wrap_hist (restarts seen while the device stayed listed; dropped when it is absent). Live cases: the running kernel's /proc/net/dev (also with real ifb interfaces created for the "
+        "snapshot under names ending in 0x1f / starting with U+0085), /proc/diskstats and /sys/block/*/stat, parsed into the spec "
+        "records, re-printed by the Coq printers (must be byte-identical, else exit 2), then run through model, spec and psutil, "
+        "and psutil is also asked about the real /proc (same names, no counter below the snapshot). Large tables generated inside Gallina "
         "from a compact seed (device k = 'd<k>', counters 1000k+j or 2^64-1-(32k+j)): /proc/diskstats of exactly 32768 bytes, "
         "with a line ending exactly at byte 32768 and 40 more lines, of 65537 bytes (625 lines), of 131 lines of 64-bit-wide "
         "counters (49 KB), a 150-interface wide /proc/net/dev with a line ending at 32768, a /sys/block of 150 disks "
         "(thorough: also 32767/32769/65536, 450 lines, 400 interfaces, 300 disks); every listed device must appear per-disk and "
         "the total must be the sum over all whole disks. A case is non-trivial when at least one interface/device/non-zero "
         "block count/byte is present; distinct = distinct canonical case hash.")
-TRUSTED = ["for the large-table cases the file bytes are rebuilt by a Python printer and accepted only when length and a 61-bit "
+TRUSTED = ["the kernel printers of Spec.v for /proc/net/dev, /proc/diskstats (20-field lines) and /sys/block/*/stat are validated "
+           "byte for byte against the running kernel on every run (live cases; other layouts remain transcriptions of the "
+           "kernel documentation)",
+           "for the large-table cases the file bytes are rebuilt by a Python printer and accepted only when length and a 61-bit "
            "polynomial checksum equal those of the bytes the Coq kernel printer produced (printing 50 000 list elements in coqc "
            "costs seconds); the coqc children run with the stack limit raised (props/C09.py sets RLIMIT_STACK)",
            "correspondence harness props/C09.py + pv/ (fake /proc/net/dev, /proc/diskstats, /sys/block via pv.shim, os.statvfs patch)",
@@ -366,6 +372,100 @@ def _big_cases(tier):
     return out
 
 
+# ------------------------------------------------------------------ live cases: the RUNNING kernel's files
+def _live_net(which=(0, 1, 2)):
+    """Snapshot of the real /proc/net/dev, if possible with extra real interfaces (type ifb) whose names exercise
+    what dev_valid_name() accepts: plain, ending in 0x1f, UTF-8 with U+0085 first.  Parsed into the record the Coq
+    printer takes; the printed bytes must equal the real ones."""
+    import subprocess
+    tag = b"%x" % (os.getpid() & 0xfffff)
+    want = [[b"pvl" + tag, b"pvu" + tag + b"\x1f", b"\xc2\x85pv\xc3\xa9" + tag][j] for j in which]
+    made = []
+    try:
+        for n in want:
+            try:
+                r = subprocess.run([b"ip", b"link", b"add", n, b"type", b"ifb"], capture_output=True, timeout=10)
+                if r.returncode == 0:
+                    made.append(n)
+            except Exception:
+                pass
+        with open("/proc/net/dev", "rb") as f:
+            real = f.read()
+    finally:
+        for n in made:
+            try:
+                subprocess.run([b"ip", b"link", b"del", n], capture_output=True, timeout=10)
+            except Exception:
+                pass
+    ifs = []
+    for line in real.split(b"\n")[2:]:
+        if not line:
+            continue
+        colon = line.rfind(b":")
+        ifs.append({"name": _b2s(line[:colon].lstrip(b" ")), "c": [int(x) for x in line[colon + 1:].split()]})
+    return {"kind": "net", "cls": "live-netdev" + ("-created%d" % len(made) if made else ""), "sp": True, "ifs": ifs,
+            "real": real.hex(), "live": True}
+
+
+def _live_disk():
+    with open("/proc/diskstats", "rb") as f:
+        real = f.read()
+    listing = sorted(os.listdir(b"/sys/block")) if os.path.isdir("/sys/block") else []
+    devs = []
+    for line in real.split(b"\n"):
+        if not line:
+            continue
+        t = line.split()
+        f = [int(x) for x in t[3:]]
+        name = _b2s(t[2])
+        devs.append({"name": name, "lay": "f%d" % len(t), "whole": _enc(_sysname(name)) in listing, "major": int(t[0]),
+                     "minor": int(t[1]), "f": f[:11], "extra": f[11:]})
+    mine = {_enc(_sysname(d["name"])) for d in devs if d["whole"]}
+    return {"kind": "disk", "cls": "live-diskstats", "devs": devs, "others": [_b2s(n) for n in listing if n not in mine],
+            "real": real.hex(), "live": True}
+
+
+def _live_sys():
+    disks, real = [], []
+    for b in sorted(os.listdir("/sys/block")):
+        top = os.path.join("/sys/block", b)
+        ents = []
+        for root, _, files in os.walk(top):
+            if "stat" in files:
+                with open(os.path.join(root, "stat"), "rb") as f:
+                    ents.append((os.path.basename(root), f.read()))
+        if not ents or ents[0][0] != b:
+            raise RuntimeError("C09 live: /sys/block/%s has no stat file of its own" % b)
+        mk = lambda n, c: {"name": n, "f": [int(x) for x in c.split()][:11], "extra": [int(x) for x in c.split()][11:]}   # noqa: E731
+        d = mk(*ents[0])
+        d["parts"] = [mk(n, c) for n, c in ents[1:]]
+        disks.append(d)
+        real += [c.hex() for _, c in ents]
+    return {"kind": "sys", "cls": "live-sysfs", "disks": disks, "real": real, "live": True}
+
+
+def _live_cases():
+    out = []
+    for fn, path in ((_live_net, "/proc/net/dev"), (_live_disk, "/proc/diskstats"), (_live_sys, "/sys/block")):
+        if os.path.exists(path):
+            out.append(fn())
+    if os.path.exists("/proc/net/dev"):
+        out += [_live_net(()), _live_net((0,)), _live_net((1,)), _live_net((2,))]
+    return out
+
+
+def _check_live(case, printed):
+    """the bytes the Coq kernel printer produced for the parsed record must be the running kernel's bytes"""
+    if case["kind"] == "sys":
+        mine, real = [unB(x).hex() for x in printed], case["real"]
+    else:
+        mine, real = unB(printed).hex(), case["real"]
+    if mine != real:
+        raise RuntimeError("C09 live (%s): Spec.v's kernel printer does not reproduce the running kernel's file.\nreal:    %r\nprinted: %r"
+                           % (case["cls"], real if isinstance(real, list) else bytes.fromhex(real)[:600],
+                              mine if isinstance(mine, list) else bytes.fromhex(mine)[:600]))
+
+
 def _bump(rng, vec):
     """counters of a device that stays listed: none decreases"""
     return [v + rng.choice([0, 0, 1, 7, 1000, 2 ** 32]) for v in vec]
@@ -503,6 +603,9 @@ def gen_cases(rng, tier):
     # ---- large tables: files beyond the 32 KiB read buffer (sizes around 32 KiB / 64 KiB, a line ending exactly at the
     # boundary, a line straddling it, 450 ordinary lines, 131 lines of 64-bit-wide counters), generated inside Gallina
     big = _big_cases(tier) if tier != "search" else []
+    # ---- live: the running kernel's own /proc/net/dev, /proc/diskstats, /sys/block/*/stat (validates the printers of Spec.v)
+    if tier != "search":
+        cases.extend(_live_cases())
     # ---- exhaustive small parts
     if tier != "search":
         for lay in LAYS:
@@ -754,6 +857,8 @@ def _sort_dict(v):
 
 def coq_struct(case, raw):
     k = case["kind"]
+    if case.get("live"):
+        _check_live(case, raw[0])
     if k == "net":
         spec = None if raw[3] is None else [raw[3], raw[4]]
         return {"printed": raw[0], "model": [raw[1], raw[2]], "spec": spec, "in_domain": raw[5], "dev_valid": raw[6]}
@@ -928,7 +1033,40 @@ def _mk_block(listing):
     return blk
 
 
+def _live_real(case, coq, psutil, res, env):
+    """Besides the snapshot run: ask psutil about the REAL /proc.  Counters move, so what must hold is: every device of the
+    snapshot that still exists is reported under the same name with no field below the snapshot's documented value."""
+    spec = coq.get("spec")
+    if spec is None or case["kind"] not in ("net", "disk"):
+        return res
+    want = {tuple(k): [v for _, v in nt] for k, nt in spec[0]["a"][0]["a"][0]}
+    psutil.PROCFS_PATH = "/proc"
+    try:
+        if case["kind"] == "net":
+            real = psutil.net_io_counters(pernic=True, nowrap=False)
+        else:
+            real = psutil.disk_io_counters(perdisk=True, nowrap=False)
+    finally:
+        psutil.PROCFS_PATH = os.path.join(env["work"], "proc")
+    got = {tuple(ord(ch) for ch in k): list(v) for k, v in real.items()}
+    common = [k for k in want if k in got]
+    if not common or (case["kind"] == "disk" and set(want) != set(got)):
+        return T("LiveRealMismatch", "names", sorted(want), sorted(got))
+    for k in common:
+        if len(got[k]) != len(want[k]) or any(g < w for g, w in zip(got[k], want[k])):
+            return T("LiveRealMismatch", list(k), want[k], got[k])
+    return res
+
+
 def impl_run(case, coq, env):
+    r = _impl_run(case, coq, env)
+    if case.get("live"):
+        import psutil
+        r = _live_real(case, coq, psutil, r, env)
+    return r
+
+
+def _impl_run(case, coq, env):
     import psutil
     k = case["kind"]
     if k in ("dec", "uws"):
